@@ -14,6 +14,8 @@ mod ops_c32;
 mod ops_c16;
 mod ops_c24;
 mod ops_c25;
+mod ops_c23;
+mod ops_c11;
 // ADD-MODS-HERE
 
 fn main() {
